@@ -36,7 +36,7 @@ META = {
             'fingerprints, not by translation.',
     'technique': 'Rocq/Coq proof over hand models + regenerated tables + vm_compute correspondence + openssl cross-check + fault injection',
 }
-MODEL_TARGETS = ['Gen/C10_Tables.vo', 'Model/C10_RsaMath.vo', 'Model/C10_RsaSig.vo', 'Model/C10_Dh.vo',
+MODEL_TARGETS = ['Gen/C10_Tables.vo', 'Model/C10_RsaMath.vo', 'Model/C10_RsaSig.vo', 'Model/C10_Dh.vo', 'Model/C10_Dsa.vo',
                  'Model/C10_SignSites.vo', 'Spec/C10_DigestInfo.vo']
 CORPUS = os.path.join(vlib.ROOT, 'corpus', 'C10')
 
@@ -366,6 +366,13 @@ Definition CaseF := (bool * Z * Z * Z * (Z + list Z) * option (list Z) * Z)%type
 Definition chk_ffdh (c : CaseF) : bool :=
   let '(tls13, g, p, x, sh, impl, code) := c in
   res_matches list_eqb (ffdh_calc_shared tls13 p x (match sh with inl y => ShareInt y | inr b => ShareBytes b end)) impl code.
+Definition CaseDS := (dsa_key * list Z * Z * Z * Z * Z)%type.
+Definition chk_dsasign (c : CaseDS) : bool :=
+  let '(key, data, k, kinv, r, s) := c in
+  let '(r', s') := dsa_sign key data k kinv in (r' =? r) && (s' =? s).
+Definition CaseDV := (dsa_key * Z * Z * list Z * Z * bool)%type.
+Definition chk_dsaverify (c : CaseDV) : bool :=
+  let '(key, r, s, data, w, impl) := c in Bool.eqb (dsa_verify key r s data w) impl.
 Definition CaseX := (bool * list Z * list Z * option (list Z) * Z)%type.
 Definition chk_x (c : CaseX) : bool :=
   let '(is448, k, u, impl, code) := c in
@@ -579,6 +586,49 @@ def model_cases_worker(args):
                 impl, code = None, EXC_CODE.get(type(ex).__name__, 99)
             lits.append('(%s, %d, %d, %d, %s, %s, %d)' % (vlib.boollit(ver == (3, 4)), g, p, x, slit, vlib.optlit(impl, blit), code))
             meta.append(dict(fam=fam, p_bits=p.bit_length(), y=y if y < 2 ** 64 else 'big', ver=ver, code=code))
+    elif fam in ('dsasign', 'dsaverify'):
+        import tlslite.utils.python_dsakey as pdk
+        from tlslite.utils.cryptomath import invMod, isPrime
+        from ecdsa.der import encode_sequence, encode_integer
+        from ecdsa.util import sigdecode_der
+        for i in range(n):
+            qb = rng.choice([8, 16, 24, 32])
+            while True:
+                q = rng.getrandbits(qb) | (1 << (qb - 1)) | 1
+                if isPrime(q):
+                    break
+            while True:
+                m = rng.getrandbits(rng.choice([8, 24, 40])) | 1
+                p = 2 * m * q + 1
+                if isPrime(p):
+                    g = pow(rng.randrange(2, p - 1), (p - 1) // q, p)
+                    if g != 1:
+                        break
+            x = rng.randrange(1, q)
+            key = pdk.Python_DSAKey(p, q, g, x)
+            klit = '{| dk_p := %d; dk_q := %d; dk_g := %d; dk_x := %d; dk_y := %d |}' % (p, q, g, x, key.public_key)
+            data = bytes(rng.randrange(256) for _ in range(rng.choice([0, 1, 2, 4, 20, 32])))
+            k = rng.randrange(1, q)
+            saved = pdk.getRandomNumber
+            pdk.getRandomNumber = lambda lo, hi, _k=k: _k
+            try:
+                sig = bytes(key.sign(bytearray(data)))
+            finally:
+                pdk.getRandomNumber = saved
+            r, s_ = sigdecode_der(sig, q)
+            if fam == 'dsasign':
+                lits.append('(%s, %s, %d, %d, %d, %d)' % (klit, blit(data), k, invMod(k, q), r, s_))
+                meta.append(dict(fam=fam, qbits=qb, r0=(r == 0), s0=(s_ == 0)))
+            else:
+                for cls, rr, ss, dd in [('valid', r, s_, data), ('r+1', r + 1, s_, data), ('s+1', r, s_ + 1, data), ('r=0', 0, s_, data),
+                                        ('s=q', r, q, data), ('r+q', r + q, s_, data), ('data', r, s_, data + b'\x01'),
+                                        ('random', rng.randrange(1, q), rng.randrange(1, q), data)]:
+                    try:
+                        impl = bool(key.verify(bytearray(encode_sequence(encode_integer(rr), encode_integer(ss))), bytearray(dd)))
+                    except Exception:  # noqa
+                        continue
+                    lits.append('(%s, %d, %d, %s, %d, %s)' % (klit, rr, ss, blit(dd), invMod(ss, q), vlib.boollit(impl)))
+                    meta.append(dict(fam=fam, cls=cls, impl=impl, qbits=qb))
     elif fam == 'x':
         from tlslite.keyexchange import ECDHKeyExchange
         from tlslite.constants import GroupName
@@ -618,7 +668,8 @@ def model_cases_worker(args):
 
 FAMILIES = {'verify': ('CaseV', 'chk_verify'), 'verify-raw': ('CaseV', 'chk_verify'), 'encode': ('CaseE', 'chk_encode'),
             'pad': ('CaseP', 'chk_pad'), 'math': ('CaseM', 'chk_math'), 'sign': ('CaseS', 'chk_sign'),
-            'ffdh': ('CaseF', 'chk_ffdh'), 'x': ('CaseX', 'chk_x')}
+            'ffdh': ('CaseF', 'chk_ffdh'), 'x': ('CaseX', 'chk_x'), 'dsasign': ('CaseDS', 'chk_dsasign'),
+            'dsaverify': ('CaseDV', 'chk_dsaverify')}
 
 
 # ------------------------------------------------------------------------------------------
@@ -701,6 +752,8 @@ def run(ctx):
         fam_n = dict(verify=6, encode=40, pad=30, math=40, sign=24, ffdh=48, x=1) if quick else \
             dict(verify=120, encode=300, pad=120, math=300, sign=120, ffdh=400, x=8)
         fam_n['verify-raw'] = 6 if quick else 30
+        fam_n['dsasign'] = 30 if quick else 300
+        fam_n['dsaverify'] = 12 if quick else 100
         a_model = pool.map_async(model_cases_worker, [(f, rng.randrange(2 ** 31), k) for f, k in sorted(fam_n.items())], chunksize=1)
 
         # ---------------- fault injection (needs the baselines first)
@@ -831,7 +884,7 @@ def run(ctx):
             ns = max(1, (len(lits) + per - 1) // per)
             for sh in range(ns):
                 text = ('From Coq Require Import ZArith List Bool String.\n'
-                        'From TV Require Import Base.Prelude Gen.C10_Tables Model.C10_RsaMath Model.C10_RsaSig Model.C10_Dh.\n'
+                        'From TV Require Import Base.Prelude Gen.C10_Tables Model.C10_RsaMath Model.C10_RsaSig Model.C10_Dh Model.C10_Dsa.\n'
                         'Import ListNotations.\nOpen Scope Z_scope.\n%s\n'
                         'Definition cases : list (%s) := [\n%s\n].\n'
                         'Eval vm_compute in (bad_idx (%s) cases).\n' % (PREAMBLE, ty, ';\n'.join(lits[sh::ns]), fn))
@@ -853,7 +906,7 @@ def run(ctx):
                 tie_broken = tie_broken or 'model %s disagrees with the implementation on %s' % (fam, json.dumps(meta[gi], default=repr)[:600])
         for fam, lits, meta in fams:
             ctx.count('model-vs-impl:' + fam, len(lits), [tuple(sorted((k, str(v)) for k, v in m.items() if k in
-                                                                       ('cls', 'scheme', 'hash', 'code', 'impl', 'bits', 'p_bits', 'is448', 'embits'))) for m in meta])
+                                                                       ('cls', 'scheme', 'hash', 'code', 'impl', 'bits', 'p_bits', 'is448', 'embits', 'qbits'))) for m in meta])
         ctx.log('model vs implementation: %s' % {f: len(l) for f, l, _ in fams})
     elif not res['model_ok']:
         tie_broken = tie_broken or 'model does not compile: %s' % res['failing']
